@@ -250,6 +250,18 @@ class SyncedList(SyncedCollection, MutableSequence):
                 [self._from_base(data=value, parent=self) for value in iterable_data]
             )
 
+    def pop(self, index=-1):  # noqa: D102
+        # The MutableSequence mixin implements pop as an item access followed
+        # by a separate deletion, which is not atomic across threads.
+        with self._load_and_save:
+            return self._data.pop(index)
+
+    def reverse(self):  # noqa: D102
+        # The mixin swaps items pairwise with one load and save per
+        # assignment; reverse in place under a single lock instead.
+        with self._load_and_save:
+            self._data.reverse()
+
     def remove(self, value):  # noqa: D102
         with self._load_and_save, self._suspend_sync:
             self._data.remove(self._from_base(data=value, parent=self))
